@@ -601,6 +601,21 @@ class BaseIOStream:
         if self._read_future is not None:
             futures.append(self._read_future)
             self._read_future = None
+            # The pending read is being failed; forget its parameters so
+            # that they cannot leak into a later read of the data that is
+            # still buffered (reads from the buffer remain legal after
+            # close).
+            self._read_bytes = self._read_delimiter = self._read_regex = None
+            self._read_partial = False
+            if self._user_read_buffer:
+                # A read_into() was in progress. Give the caller's buffer
+                # back and keep the bytes received so far in our own
+                # read buffer.
+                self._read_buffer = bytearray(
+                    memoryview(self._read_buffer)[: self._read_buffer_size]
+                )
+                self._after_user_read_buffer = None
+                self._user_read_buffer = False
         futures += [future for _, future in self._write_futures]
         self._write_futures.clear()
         if self._connect_future is not None:
